@@ -4,7 +4,7 @@ import ast
 
 from ..program import AnalysisError, walk_local, dotted
 from ..analysis import Spec, src, const_value
-from ..rules import (canon, string_template, substitute_locals, inside, before, GWF, EXC, mpt, need_func, stores_to, raise_class,
+from ..rules import (flow_canon, canon, string_template, substitute_locals, inside, before, GWF, EXC, mpt, need_func, stores_to, raise_class,
                      parent_map, kw, is_const, strip_wrappers, eval_atom,
                      UNKNOWN)
 from . import common
@@ -673,10 +673,14 @@ def validation_gates(prog, an, rep):
             is_const(n.ast.value, True)]
     rep.floor('C01 _validated = True sites', len(sets), 1)
     errs_raise = [n for n in cv.nodes.values() if n.kind == 'raise_stmt']
+    # the error accumulator: what IncoherentQueues is raised with
+    acc = {src(x.args[0]) for r in errs_raise for x in ast.walk(r.ast)
+           if isinstance(x, ast.Call) and
+           src(x.func).endswith('IncoherentQueues') and x.args}
     err_test_false = an.branch_nodes(v, lambda e: isinstance(e, ast.Name)
-                                     and e.id == 'errs', False)
-    empty = an.branch_nodes(v, lambda e: isinstance(e, ast.Name) and
-                            e.id == 'versions', False)
+                                     and e.id in acc, False, expand=None)
+    empty = an.branch_nodes(v, lambda e: flow_canon(an, v, e) in (
+        'self._queues', 'self._queues.keys()'), False, expand=None)
     for s_ in sets:
         rep.evaluated()
         ok, pth = cv.must_pass(err_test_false + empty, s_.id)
